@@ -350,5 +350,15 @@ func longArrayJobs(prefix, checks, config string) []*engine.Job {
 			Params: map[string]string{"path": p.Text, "ast": p.Ast, "holes": "", "config": config, "checks": checks, "infilter": "0"},
 			Docs:   map[string]*engine.DocCfg{"doc": cfg}})
 	}
+	// multi-name selectors on objects over the keys {a,b,c} (any subset present)
+	for i, p := range multiNamePaths() {
+		cfg := docCfg(p.Depth, 2, []string{"a", "b", "c"}, engine.KNil|engine.KFloat|engine.KString)
+		if p.Depth > 1 {
+			cfg.MaxLenAt = map[int]int{1: 1}
+		}
+		jobs = append(jobs, &engine.Job{ID: fmt.Sprintf("%s-names-%d", prefix, i), Harness: "zzH_Eval",
+			Params: map[string]string{"path": p.Text, "ast": p.Ast, "holes": "", "config": config, "checks": checks, "infilter": "0"},
+			Docs:   map[string]*engine.DocCfg{"doc": cfg}, Budget: 20000})
+	}
 	return jobs
 }
